@@ -980,3 +980,67 @@ func runEqualLaws(ctx *core.Ctx, id string) {
 		}
 	}
 }
+
+// runEqualPadding: insignificant white space is unbounded - a compact text and the same text padded with N
+// blanks (N = 0..130 and around the powers of two and of ten up to 100 000) in front, behind, after every
+// structural character, or as deep indentation denote the same value; against a different value never.
+func runEqualPadding(ctx *core.Ctx, id string) {
+	bases := []string{`{"a":1,"b":[null]}`, `{"deep":{"deep":{"deep":{"deep":{"k":[1,{"x":"y z"},"s"],"n":null}}}},"t":true}`, `[1,"two",{"three":[3]}]`, `"s"`, `null`}
+	others := []string{`{"a":1,"b":[0]}`, `{"deep":{"deep":{"deep":{"deep":{"k":[1,{"x":"y  z"},"s"],"n":null}}}},"t":true}`, `[1,"two",{"three":[4]}]`, `"s "`, `0`}
+	sizes := sweepSizes(130, 256, 1000, 1024, 4096, 8192, 10000, 65536, 100000)
+	m0 := &mergeRun{id: id, ctx: ctx}
+	n := ctx.Counter("equal_padding_pairs")
+	type unit struct {
+		base, other string
+		size        int
+	}
+	var units []unit
+	for i := range bases {
+		for _, s := range sizes {
+			units = append(units, unit{bases[i], others[i], s})
+		}
+	}
+	ctx.Parallel(len(units), func(w *core.Worker, i int) {
+		m := *m0
+		m.w = w
+		u := units[i]
+		pad := strings.Repeat(" ", u.size)
+		crlf := strings.Repeat("\r\n", u.size/2+1)
+		// after every structural character outside strings
+		var sb strings.Builder
+		per := strings.Repeat(" ", u.size/8+1)
+		inStr, esc := false, false
+		for j := 0; j < len(u.base); j++ {
+			c := u.base[j]
+			sb.WriteByte(c)
+			if inStr {
+				if esc {
+					esc = false
+				} else if c == '\\' {
+					esc = true
+				} else if c == '"' {
+					inStr = false
+				}
+				continue
+			}
+			switch c {
+			case '"':
+				inStr = true
+			case '{', '[', ',', ':':
+				sb.WriteString(per)
+			}
+		}
+		for _, padded := range []string{pad + u.base, u.base + pad, u.base + crlf, pad + u.base + crlf, sb.String()} {
+			for _, pr := range [][3]interface{}{{u.base, padded, true}, {padded, u.base, true}, {padded, padded, true}, {u.other, padded, false}, {padded, u.other, false}} {
+				a, b, want := pr[0].(string), pr[1].(string), pr[2].(bool)
+				r := m.Equal(a, b)
+				atomic.AddInt64(n, 1)
+				if r.Panic != "" {
+					m.viol("equal-panics", panicKey(r), fmt.Sprintf("Equal on a text padded with %d blanks panics: %s", u.size, r.Panic), "Equal", a, b)
+				} else if r.Bool != want {
+					m.viol("equal-wrong", fmt.Sprintf("equal-wrong:%v:padding", want), fmt.Sprintf("Equal(%s, <the same value padded with about %d blanks: %d bytes>) = %v, structural equality is %v", trunc(a, 80), u.size, len(b), r.Bool, want), "Equal", a, b)
+				}
+			}
+		}
+	})
+}
